@@ -2,7 +2,7 @@
 import re
 
 from facts import walk, render, role, AnalysisBroken
-from engines import ff, nth_arg, receiver, enclosing_conditions
+from engines import ff, nth_arg, receiver, enclosing_conditions, render_x
 import core
 import fields
 import xmlvocab
@@ -442,14 +442,14 @@ def run(F, rep):
             m = re.match(r'component([12])$', rcv)
             if not m or arg is None:
                 continue
-            t = render(arg)
+            t = render_x(lc, arg)
             want = {'1': ('iterInfo[0]', 'variable1'), '2': ('iterInfo[1]', 'variable2')}[m.group(1)]
             n_o += 1
             rep.check(any(w in t for w in want), 'C02.O1', 'parser|%s->%s(%s)' % (rcv, c['fn'], t[:20]), lc.where(c), 'component_%s is searched for / given `%s`' % (m.group(1), t), 'same index')
     ae = [c for c in lc.walk() if c.get('k') == 'Call' and c.get('fn') == 'addEquivalence']
     if len(ae) != 1 or n_o < 6:
         raise AnalysisBroken('loadConnection: addEquivalence / per-component lookups vanished (%d lookups)' % n_o)
-    args = [render(a) for a in ae[0]['c']]
+    args = [render_x(lc, a) for a in ae[0]['c']]
     rep.check(args[:2] == ['variable1', 'variable2'] and 'connectionId' in args[3] and '[2]' in args[2], 'C02.O1', 'parser|addEquivalence', lc.where(ae[0]), 'the equivalence is made with %s' % args, 'variable1, variable2, mapping id, connection id')
     # the component names: first/second of the pair come from component_1/component_2
     cp = {}
